@@ -2150,7 +2150,7 @@ def unique(a, return_counts=False, return_index=False, axis=None):
         return _dispatch(unique, (a,), kw)
     a = asarray(a).ravel()
     n = a.size
-    perm = argsort(a)
+    perm = argsort(a, kind="mergesort" if return_index else None)     # numpy sorts stably when it has to report first occurrences
     s = a[perm]
     sc = s._cells()
     first = [True] + [_not(_eq(sc[i], sc[i - 1])) for i in range(1, n)] if n else []
